@@ -77,6 +77,7 @@ package storage
 //@   ensures result.(*partDisk).s == s && result.(*partDisk).buffer != nil
 //@   ensures old(len(s.parts)) == 0 ==> result.(*partDisk).offset == 0
 //@   ensures old(len(s.parts)) >= 1 ==> result.(*partDisk).offset == old(s.parts[len(s.parts)-1]).offset + s.parts[len(s.parts)-2].size
+//@   ensures old(len(s.parts)) >= 1 ==> s.parts[len(s.parts)-2].size == len(bytesof(s.parts[len(s.parts)-2].buffer))
 //@ end
 
 //@ func fileDisk.Finalize
@@ -87,12 +88,14 @@ package storage
 //@   modifies s.finalSize, s.f, partDisk.size, partDisk.buffer
 //@   ensures s.f == nil
 //@   ensures len(s.parts) >= 1 ==> s.finalSize == s.parts[len(s.parts)-1].offset + s.parts[len(s.parts)-1].size
+//@   ensures len(s.parts) >= 1 ==> s.parts[len(s.parts)-1].size == len(bytesof(old(s.parts[len(s.parts)-1].buffer)))
 //@   ensures forall(i, (0 <= i && i < len(s.parts)) ==> s.parts[i].buffer == nil)
 //@   loop 1 invariant ri < len(s.parts) && forall(k, (0 <= k && k <= ri) ==> s.parts[k].buffer == nil)
 //@   loop 1 invariant forall(k, (0 <= k && k < len(s.parts)) ==> (s.parts[k] != nil && s.parts[k].s == s))
 //@   loop 1 invariant forall(i, j, (0 <= i && i < j && j < len(s.parts)) ==> s.parts[i] != s.parts[j])
 //@   loop 1 invariant (len(s.parts) >= 1 ==> s.parts[0].offset == 0) && forall(i, (0 <= i && i + 1 < len(s.parts)) ==> s.parts[i+1].offset == s.parts[i].offset + s.parts[i].size)
 //@   loop 1 invariant len(s.parts) >= 1 ==> s.finalSize == s.parts[len(s.parts)-1].offset + s.parts[len(s.parts)-1].size
+//@   loop 1 invariant len(s.parts) >= 1 ==> s.parts[len(s.parts)-1].size == len(bytesof(old(s.parts[len(s.parts)-1].buffer)))
 //@ end
 
 //@ func fileDisk.Reader
